@@ -177,7 +177,16 @@ pub fn run(o: &crate::Opts) {
     let mut cap = Capture::install();
     let mut sink = crate::Sink::new(o);
     if let Some(path) = &o.replay {
+        let tmp = crate::cli::TmpDir::new("c03-replay");
         for line in std::fs::read_to_string(path).unwrap().lines() {
+            // terminal sessions (harness id C03T) are replayed through the pty harness
+            if line.starts_with("T03 ") || line.starts_with("K03 ") {
+                match crate::tty::replay_line(&tmp.0, line) {
+                    Some(obs) => sink.put(line, &obs),
+                    None => sink.put(line, "bad-request"),
+                }
+                continue;
+            }
             match RunCase::parse(line) {
                 Some(c) => {
                     let obs = run_case(&mut cap, &c);
